@@ -134,6 +134,11 @@ theorem worker_can_step (s : St) (w : Nat) (x : Worker) (hw : s.ws w = some x) :
 
 /-- a queuer can take its next step, or the dependency it waits for can make progress — by induction along
     the (acyclic) dependency order -/
+theorem not_ext_of_not_stopped {s : St} (h1 : Inv c s) (hs : s.stopped = false) : s.ext = false := by
+  cases h : s.ext with
+  | false => rfl
+  | true => have := h1.extStopped h; rw [hs] at this; cases this
+
 theorem queuer_can_step {s : St} (h1 : Inv c s) (h3 : Inv3 c s) (hs : s.stopped = false)
     (hgt : T → Nat) (hacy : ∀ t d, d ∈ c.deps t → hgt d < hgt t) :
     ∀ k i q, s.qs i = some q → hgt q.t ≤ k → CanStep c s := by
@@ -164,14 +169,14 @@ theorem queuer_can_step {s : St} (h1 : Inv c s) (h3 : Inv3 c s) (hs : s.stopped 
         revert hrk hterm hns hf
         cases s.st d <;> simp [TS.rank, TS.terminal, TS.isBuilt]
       rcases hcases with ha | hp | hb
-      · have hl := h3.activeHasQueuer hs d ha
+      · have hl := h3.activeHasQueuer (not_ext_of_not_stopped c h1 hs) d ha
         cases hq' : s.qs (s.bq d) with
         | none => rw [hq'] at hl; exact absurd hl (by simp)
         | some q' =>
           rw [hq'] at hl
           simp only [liveFor_some] at hl
           exact ih (s.bq d) q' hq' (by rw [hl.1]; omega)
-      · rcases h3.pendingHasToken hs d hp with hm | hw
+      · rcases h3.pendingHasToken (not_ext_of_not_stopped c h1 hs) d hp with hm | hw
         · exact canStep_of c (a := .take (s.tm d)) trivial (by simp [fire, hm])
         · exact worker_can_step c s _ _ hw
       · exact worker_can_step c s _ _ (h3.buildingHasWorker d hb)
@@ -200,7 +205,7 @@ theorem no_deadlock {s : St} (hr : Reach c s) (hacy : Acyclic c) : Final s ∨ C
   | false =>
     right
     have hpos := reach_pos c hr hs
-    have hacc := reach_acct c hr hs
+    have hacc := reach_acct c hr (not_ext_of_not_stopped c h1 hs)
     have hu : 1 ≤ units s := by omega
     unfold units at hu
     by_cases hi : s.initDone = true
